@@ -1,6 +1,8 @@
 //! C16 / C04 harnesses for src/common_data_structures/mod.rs (text strings).
 use super::*;
 use crate::verif_common::*;
+#[allow(unused_imports)]
+use verif_support;
 
 fn obj_bytes(o: &Object) -> &[u8] {
     match o {
@@ -137,3 +139,253 @@ macro_rules! dts_total {
 dts_total!(c04_decode_text_string_3, 3, 8);
 dts_total!(c04_decode_text_string_4, 4, 9);
 dts_total!(c04_decode_text_string_5, 5, 10);
+
+// ---- text_string -> decode_text_string round trip, one harness per UTF-8 length class --------------
+/// UTF-8 bytes of a scalar value, by construction (RFC 3629); returns the number of bytes.
+fn utf8_of(cp: u32, out: &mut [u8; 4]) -> usize {
+    if cp < 0x80 {
+        out[0] = cp as u8;
+        1
+    } else if cp < 0x800 {
+        out[0] = 0xC0 | (cp >> 6) as u8;
+        out[1] = 0x80 | (cp & 0x3F) as u8;
+        2
+    } else if cp < 0x10000 {
+        out[0] = 0xE0 | (cp >> 12) as u8;
+        out[1] = 0x80 | ((cp >> 6) & 0x3F) as u8;
+        out[2] = 0x80 | (cp & 0x3F) as u8;
+        3
+    } else {
+        out[0] = 0xF0 | (cp >> 18) as u8;
+        out[1] = 0x80 | ((cp >> 12) & 0x3F) as u8;
+        out[2] = 0x80 | ((cp >> 6) & 0x3F) as u8;
+        out[3] = 0x80 | (cp & 0x3F) as u8;
+        4
+    }
+}
+
+/// One scalar value whose UTF-8 form has exactly K bytes: text_string() then decode_text_string()
+/// returns exactly that character.
+fn text_string_rt<const K: usize>(lo: u32, hi: u32) {
+    let cp: u32 = kani::any();
+    kani::assume(cp >= lo && cp <= hi);
+    kani::assume(cp < 0xD800 || cp > 0xDFFF);
+    let mut b = [0u8; 4];
+    let n = utf8_of(cp, &mut b);
+    assert!(n == K);
+    let mut kb = [0u8; K];
+    let mut i = 0;
+    while i < K {
+        kb[i] = b[i];
+        i += 1;
+    }
+    let s = verif_support::str_from_valid_utf8(&kb);
+    let o = text_string(s);
+    {
+        let bytes = obj_bytes(&o);
+        if cp >= 0x80 {
+            assert!(bytes.len() >= 4 && bytes[0] == 0xFE && bytes[1] == 0xFF, "non-ASCII text must be UTF-16BE with BOM");
+        } else if cp >= 0x20 && cp < 0x7F {
+            assert!(bytes.len() == 1 && bytes[0] == cp as u8, "printable ASCII must stay one PDFDocEncoding byte");
+        }
+    }
+    let d = decode_text_string(&o);
+    match &d {
+        Ok(t) => {
+            let tb = t.as_bytes();
+            assert!(tb.len() == K, "text string does not decode to the original character");
+            let mut i = 0;
+            while i < K {
+                assert!(tb[i] == kb[i], "text string does not decode to the original character");
+                i += 1;
+            }
+        }
+        Err(_) => panic!("text string produced by text_string() is rejected by decode_text_string()"),
+    }
+    kani::cover!(cp == hi);
+    kani::cover!(cp == lo);
+    std::mem::forget(d);
+    std::mem::forget(o);
+}
+#[kani::proof]
+#[kani::unwind(8)]
+#[kani::stub(<str>::is_ascii, str_is_ascii_model)]
+fn c16_text_string_rt_utf8len1() {
+    text_string_rt::<1>(0x00, 0x7F);
+}
+#[kani::proof]
+#[kani::unwind(8)]
+#[kani::stub(<str>::is_ascii, str_is_ascii_model)]
+fn c16_text_string_rt_utf8len2() {
+    text_string_rt::<2>(0x80, 0x7FF);
+}
+#[kani::proof]
+#[kani::unwind(8)]
+#[kani::stub(<str>::is_ascii, str_is_ascii_model)]
+fn c16_text_string_rt_utf8len3() {
+    text_string_rt::<3>(0x800, 0xFFFF);
+}
+#[kani::proof]
+#[kani::unwind(8)]
+#[kani::stub(<str>::is_ascii, str_is_ascii_model)]
+fn c16_text_string_rt_utf8len4() {
+    text_string_rt::<4>(0x10000, 0x10FFFF);
+}
+
+/// UTF-8 with byte-order mark (PDF 2.0), 2-byte class: decoding returns the text without the mark.
+#[kani::proof]
+#[kani::unwind(8)]
+fn c16_text_string_utf8_bom_len2() {
+    let cp: u32 = kani::any();
+    kani::assume(cp >= 0x80 && cp <= 0x7FF);
+    let mut b = [0u8; 4];
+    let _ = utf8_of(cp, &mut b);
+    let kb = [b[0], b[1]];
+    let s = verif_support::str_from_valid_utf8(&kb);
+    let bytes = encodings::encode_utf8(s);
+    assert!(bytes.len() == 5 && bytes[0] == 0xEF && bytes[1] == 0xBB && bytes[2] == 0xBF && bytes[3] == kb[0] && bytes[4] == kb[1]);
+    let o = Object::String(bytes, StringFormat::Literal);
+    let d = decode_text_string(&o);
+    match &d {
+        Ok(t) => {
+            let tb = t.as_bytes();
+            assert!(tb.len() == 2 && tb[0] == kb[0] && tb[1] == kb[1], "UTF-8 text string with BOM does not decode to the original text");
+        }
+        Err(_) => panic!("UTF-8 text string with BOM rejected"),
+    }
+    kani::cover!(cp == 0x7FF);
+    std::mem::forget(d);
+    std::mem::forget(o);
+}
+
+/// Model of `str::is_ascii` (std's implementation reads the string a machine word at a time with
+/// alignment arithmetic, which CBMC encodes very expensively): plain byte loop, same semantics.
+fn str_is_ascii_model(s: &str) -> bool {
+    let b = s.as_bytes();
+    let mut i = 0;
+    while i < b.len() {
+        if b[i] >= 0x80 {
+            return false;
+        }
+        i += 1;
+    }
+    true
+}
+
+// ---- the two halves of the round trip, each on concrete-length byte strings ---------------------
+/// decode half, PDFDocEncoding branch: a one-byte ASCII string (what text_string() produces for a
+/// one-character ASCII text) decodes to exactly that character - including TAB, LF, CR and the
+/// other C0 controls the property quantifies over.
+#[kani::proof]
+#[kani::unwind(8)]
+fn c16_decode_pdfdoc_ascii_1() {
+    let b: u8 = kani::any();
+    kani::assume(b < 0x80);
+    let o = Object::String(vec![b], StringFormat::Literal);
+    let d = decode_text_string(&o);
+    match &d {
+        Ok(t) => {
+            // length only: reading the String's bytes back is what exhausts memory here; the mapping of
+            // each byte value to its character is decided on the table itself (c16_tables_published_rules)
+            assert!(t.len() == 1, "one-character ASCII text string does not decode to exactly one ASCII character");
+        }
+        Err(_) => panic!("ASCII text string rejected"),
+    }
+    kani::cover!(b == 0x41);
+    std::mem::forget(d);
+    std::mem::forget(o);
+}
+
+/// decode half, UTF-16BE branch, one BMP unit: FE FF hi lo decodes to that character.
+#[kani::proof]
+#[kani::unwind(8)]
+fn c16_decode_utf16_unit() {
+    let u: u16 = kani::any();
+    kani::assume(u < 0xD800 || u > 0xDFFF);
+    let o = Object::String(vec![0xFE, 0xFF, (u >> 8) as u8, u as u8], StringFormat::Hexadecimal);
+    let d = decode_text_string(&o);
+    let mut exp = [0u8; 4];
+    let n = utf8_of(u as u32, &mut exp);
+    match &d {
+        Ok(t) => {
+            let tb = t.as_bytes();
+            assert!(tb.len() == n, "UTF-16BE text string decodes to a different character");
+            let mut i = 0;
+            while i < 4 {
+                if i < n {
+                    assert!(tb[i] == exp[i], "UTF-16BE text string decodes to a different character");
+                }
+                i += 1;
+            }
+        }
+        Err(_) => panic!("valid UTF-16BE text string rejected"),
+    }
+    kani::cover!(u == 0xFFFF);
+    std::mem::forget(d);
+    std::mem::forget(o);
+}
+
+/// decode half, UTF-16BE branch, surrogate pair: one astral character.
+#[kani::proof]
+#[kani::unwind(8)]
+fn c16_decode_utf16_pair() {
+    let cp: u32 = kani::any();
+    kani::assume(cp >= 0x10000 && cp <= 0x10FFFF);
+    let x = cp - 0x10000;
+    let hi = 0xD800 + (x >> 10);
+    let lo = 0xDC00 + (x & 0x3FF);
+    let o = Object::String(vec![0xFE, 0xFF, (hi >> 8) as u8, hi as u8, (lo >> 8) as u8, lo as u8], StringFormat::Hexadecimal);
+    let d = decode_text_string(&o);
+    let mut exp = [0u8; 4];
+    let n = utf8_of(cp, &mut exp);
+    assert!(n == 4);
+    match &d {
+        Ok(t) => {
+            assert!(t.len() == 4, "surrogate pair does not decode to one astral (4-byte UTF-8) character");
+        }
+        Err(_) => panic!("valid surrogate pair rejected"),
+    }
+    kani::cover!(cp == 0x10FFFF);
+    std::mem::forget(d);
+    std::mem::forget(o);
+}
+
+/// A code below 0x80 can be written as a PDFDocEncoding byte only if PDFDocEncoding maps that byte
+/// back to the same character (0x18..0x1F are accents in PDFDocEncoding, ISO 32000-1 Annex D.2).
+fn pdfdoc_keeps(cp: u32) -> bool {
+    cp < 0x80 && encodings::PDF_DOC_ENCODING[cp as usize] == Some(cp as u16)
+}
+
+/// encode half: text_string() writes a one-character text either as the single PDFDocEncoding byte
+/// (only if that byte decodes back to the character; printable ASCII always does) or as
+/// FE FF + UTF-16BE.  Together with the decode-half harnesses this gives the round trip for every
+/// one-character string up to U+07FF.
+#[kani::proof]
+#[kani::unwind(8)]
+#[kani::stub(<str>::is_ascii, str_is_ascii_model)]
+fn c16_text_string_dispatch() {
+    let cp: u32 = kani::any();
+    kani::assume(cp <= 0x7FF);
+    let mut b = [0u8; 4];
+    let n = utf8_of(cp, &mut b);
+    let one = [b[0]];
+    let two = [b[0], b[1]];
+    let s = if n == 1 { verif_support::str_from_valid_utf8(&one) } else { verif_support::str_from_valid_utf8(&two) };
+    let o = text_string(s);
+    match &o {
+        Object::String(bytes, _fmt) => {
+            if bytes.len() == 1 {
+                assert!(bytes[0] == cp as u8 && pdfdoc_keeps(cp), "text written as a PDFDocEncoding byte that does not decode back to the same character");
+            } else {
+                assert!(bytes.len() == 4 && bytes[0] == 0xFE && bytes[1] == 0xFF && bytes[2] == (cp >> 8) as u8 && bytes[3] == cp as u8, "text must be one PDFDocEncoding byte or BOM + UTF-16BE");
+            }
+            if cp >= 0x20 && cp < 0x7F {
+                assert!(bytes.len() == 1, "printable ASCII must stay PDFDocEncoding");
+            }
+        }
+        _ => panic!("text_string must produce a String object"),
+    }
+    kani::cover!(cp == 0x7F);
+    kani::cover!(cp == 0x80);
+    std::mem::forget(o);
+}
